@@ -174,6 +174,12 @@ class Obligation:
         self.reason = ""
 
     def formulas(self, extra_trig=False, instantiate=False):
+        fs = self._formulas(extra_trig=extra_trig, instantiate=instantiate)
+        if self.meta.get("abstract_int_mod"):
+            fs = T.abstract_int_mod(fs)       # sound for unsat; a model is a candidate only (see _has_abstractions)
+        return fs
+
+    def _formulas(self, extra_trig=False, instantiate=False):
         g = self.goal
         fs = list(self.hyps)
         mono = bool(self.meta.get("sum_monotone"))
@@ -862,7 +868,7 @@ def winning_strategy(reason):
 
 def _has_abstractions(fs):
     defined = T.defined_function_ids()
-    ufs = {f.get_id() for f in list(T.UF1.values()) + list(T.UF2.values())}
+    ufs = {f.get_id() for f in list(T.UF1.values()) + list(T.UF2.values())} | {T.MOD_ABS_SYM.get_id()}
     for f in fs:
         for x in T.subterms(f).values():
             if z3.is_app(x) and x.num_args() > 0:
